@@ -683,6 +683,8 @@ func (c *Ctx) c01MailboxesAs(rule string, deliver *ssa.Function, fMailboxes, fRe
 
 func (c *Ctx) c01Ack(m *smtpModel) {
 	r, p := c.R, c.P
+	nSites := 0
+	defer func() { r.Floor("C01/ACK/250-iff-stored", "Deliver call sites examined", nSites, 1) }()
 	for _, site := range m.deliverSites {
 		F := site.Parent()
 		call, ok := site.(*ssa.Call)
@@ -696,13 +698,18 @@ func (c *Ctx) c01Ack(m *smtpModel) {
 				gcall = cc
 			}
 		})
+		// Deliver called from a helper of the DATA-reading function (deliver(msg)): everything
+		// the helper sends comes after the read
 		if gcall == nil {
-			continue
+			if _, _, reads := m.liftToDataReader(p, site); !reads {
+				continue
+			}
 		}
+		nSites++
 		var probs []string
 		n2 := 0
 		eng.EachInstr(F, func(in ssa.Instruction) {
-			if !m.isSend(in) || !eng.Dominates(gcall, in) {
+			if !m.isSend(in) || gcall != nil && !eng.Dominates(gcall, in) {
 				return
 			}
 			pre, ok := m.sendPrefix(in)
